@@ -94,7 +94,7 @@ Definition ref_pop1 (left : bool) (l : list bytes) : reply * list bytes :=
   | Some (x, r) => (RBulk x, r)
   | None => (RNil, l)
   end.
-(* with count c > 0: "the reply will consist of up to count elements, depending on the list's
+(* with count c >= 0 (c = 0: the empty array of "up to 0 elements"): "the reply will consist of up to count elements, depending on the list's
    length" -- LPOP: the first min(c,len) elements head first; RPOP: the last min(c,len) elements,
    tail first; nil when the key does not exist. *)
 Definition ref_popn (left : bool) (c : Z) (l : list bytes) : reply * list bytes :=
@@ -198,7 +198,6 @@ Definition same_except (ks : list bytes) (a b : kview) : Prop := forall k, ~ In 
 
 Inductive clause :=
 | CErr                                   (* an error reply (not WRONGTYPE); nothing changes *)
-| CErrOr (r : reply)                     (* the reference leaves it open: an error or r; nothing changes *)
 | CKey (k : bytes) (f : list bytes -> reply * list bytes)      (* typed single-key command *)
 | CMove (src dst : bytes) (from_left to_left : bool)
 | CBlock (left : bool) (keys : list bytes) (timeout_s : Z).
@@ -207,7 +206,6 @@ Inductive clause :=
 Definition accepts (c : clause) (a b : kview) (r : reply) : Prop :=
   match c with
   | CErr => r = err_other /\ unchanged a b
-  | CErrOr r0 => (r = err_other \/ r = r0) /\ unchanged a b
   | CKey k f =>
     (* "WRONGTYPE Operation against a key holding the wrong kind of value": nothing changes.
        Otherwise the command acts on the list value; the deadline of the key is kept; an
@@ -315,8 +313,7 @@ Definition ref_clause (n : bytes) (args : list bytes) : option clause :=
             match int_arg c with
             | None => CErr
             | Some c => if c <? 0 then CErr                      (* "value is out of range, must be positive" *)
-                        else if c =? 0 then CErrOr (RArr [])     (* count 0: not fixed by the reference text *)
-                        else CKey k (ref_popn left c)
+                        else CKey k (ref_popn left c)            (* count 0 (Redis >= 6.2/7.0): empty array, nil if the key is missing *)
             end
           | _ => CErr end)
   else if is n (B "lrem") then
